@@ -13,7 +13,30 @@ NOTE = ("Trusted base: Lean 4.33 kernel; axioms propext/Classical.choice/Quot.so
         "Python harness, oracles and known-finding classifiers. ")
 
 # property -> (technique, level text, level note, design ref)
+WLSNOTE = ("The executable reference solves the system whose coefficients 1/K and weights are rounded to 128 significant bits "
+           "(DESIGN §4b); LSQR convergence and lstsq accuracy are exercised by the tolerance comparison (1e-3 sd), not proved. ")
+
 CLAIMED = {
+    "C01": ("Lean 4: normal equations => global minimiser (Mathlib, any ordered field) + result-checked exact rational WLS in the model + bridge theorem; differential correspondence of the captured (X,y,w), optimum, covariance, layout, tmpf",
+            "Proof: Theory.normalEq_min / normalEq_fitted_unique / exact_recovery; bridge check_sound (the model's exact check implies "
+            "the normal equations on Mathlib matrices); C01_solution_minimises, C01_fitted_unique, C01_cov_is_ginverse, C01_dof, "
+            "C01_fixed_reported; weight alignment refuted (C01_w_aligned_refuted, registered known finding) with "
+            "C01_w_aligned_partial. Every run: seeded Raman fibres (10 m..10 km, 0-2 splices, 0-2 matching pairs, four variance "
+            "forms); the system reaching the solver is compared row by row with the model's, LSQR's optimum and lstsq's covariance "
+            "with the exact optimum, the full-layout p_val/p_cov/tmpf with the model; independent Python Spec oracle.",
+            NOTE + WLSNOTE, "§8 C01"),
+    "C02": ("as C01 for the double-ended layout (forward/backward/EQ1-EQ3 rows, gauge-aware), plus tagged-solver position check",
+            "Proof: C02_solution_minimises, C02_estimable_invariant (fitted values unique although X'WX is singular with splices), "
+            "C02_alpha_zero_at_first, C02_cov_positions, C02_ta_index, on the model Calib.calibrate (alphaOutside = inverse-variance "
+            "time average). Every run: double-ended fibres, rows/optimum/covariance/p_val/p_cov/tmpf/tmpb vs the model; with the "
+            "solver replaced by a tagged stub every reduced parameter, variance and covariance must sit at its documented index.",
+            NOTE + WLSNOTE + "With splices only the weighted SSR (estimable) is compared.", "§8 C02"),
+    "C07": ("Lean 4: fixed-parameter reduction identity, reported-as-supplied theorem, positivity of the inflated variance; correspondence of the reduced system for every fix_* combination",
+            "Proof: C07_fixed_reported, C07_reduction (wssr_fixed_reduction), C07_fixed_not_active, C07_weights_positive_spec, "
+            "C07_reduceObs_single. Every run: C01/C02 generator x {fix_gamma, fix_dalpha, fix_alpha, fix_alpha+fix_gamma} x variance "
+            "classes {0, 1e-20, comparable, 100x}: reduced rows/weights vs model, optimum vs exact WLS, value/variance/zero covariance "
+            "of the fixed parameter and finiteness checked on the result.",
+            NOTE + WLSNOTE + "fix_alpha variance at the first reference location taken as 0.", "§8 C07"),
     "C14": ("Lean 4 theorems on the model of the Python slicing in shift_double_ended and of the argmin in suggest_cable_shift_double_ended + exhaustive differential correspondence",
             "Proof (all sizes, all |i|<=nx): C14_length, C14_pairing_nonneg/neg (st[j+i] with rst[j]; st[j] with rst[j-i]), "
             "C14_zero_identity, C14_compose_nonneg/neg, C14_inverse_interior, C14_suggest_member, C14_argmin_unique (a strictly "
